@@ -24,13 +24,26 @@ ASSUMPTIONS = [
     "T/dt >= 1000 (consequence of C01-KF1, recorded under C01); equality with the library's own series is asserted exactly",
     "the exact reference is evaluated for w = 6.2831853/T, the angular frequency the library's series use: C03 relates spectra to "
     "the (C01) series; the effect of the truncated constant itself is C01's business (known finding C01-KF2)",
-    "object API: response period lists are ascending (every caller in the repo passes ascending lists; the code takes the first "
-    "non-zero entry as the minimum); for the object the integration step h=dt/k replaces dt in the 6-step rule, so S_a may be "
-    "either w^2 S_d or PGA for 6h <= T < 6dt",
-    "object API oracle: exists integer k >= dt/h* (searched up to 2*ceil+1) with S_d in [S_d(record refined k x), S_d(refined k x, "
-    "last value held k-1 samples)] +- 1e-9 of scale: the statement fixes only 'no coarser than'",
-    "input energy >= 0 is asserted strictly; open known finding C03-KF1 (rectangle-rule sum is not sign-definite) routes cases whose "
-    "energy equals the defining sum but is negative",
+    "period lists: any order of the non-zero periods (ascending / descending / shuffled) for the object API and the energy functions, "
+    "T_min = the smallest non-zero period wherever it sits; a zero period only as the FIRST entry (the array functions decide the T=0 "
+    "row by periods[0] == 0; the quantifier says 'leading 0') and never for the energy functions (energy of a zero-period oscillator is "
+    "undefined) or the intensities (ascending 0.01 s grids: an integral over the period axis); for the object the integration step "
+    "h=dt/k replaces dt in the 6-step rule, so S_a may be either w^2 S_d or PGA for 6h <= T < 6dt",
+    "object API oracle: exists integer k >= dt/h* (searched over [kmin, 2 kmin + 1] and 3, 4, 6, 8, 16 x kmin) with S_d in [S_d(record refined k x), "
+    "S_d(refined k x, last value held k-1 samples)] +- 1e-9 of scale: the statement fixes only 'no coarser than'.  NOT accepted although legal: a "
+    "non-integer refinement, other integer factors, a band-limited resampling - a bound wide enough to admit every finer grid (continuous peak "
+    "minus max|u''| h*^2/8) also admits the coarser steps the sentence exists to exclude for T of a few dt, so it cannot be decided soundly here",
+    "input energy: what is asserted, unconditionally and first, is the equality with the defining sum (sum a_i v_i dt over the library's own "
+    "velocity series, eps (n+8) sum|terms|).  'Non-negative at the end of the record' is asserted strictly, but while known finding C03-KF1 "
+    "(the rectangle-rule sum is not sign-definite) is open its matcher - E_end < 0 and E_end equals its defining sum - is true for EVERY "
+    "negative energy that passed the equality, so the non-negativity sentence has NO detection power of its own (about 11 % of the energy "
+    "cases are negative on the pinned tree); a defect that makes the energy negative is caught by the equality or not at all",
+    "tolerances: relations between two entry points (S_d vs max|u| of response_series, true vs pseudo S_d, object vs array function without "
+    "interpolation) hold to the rounding of a reordered n-step recurrence (64 n eps of the robust scale), not bit for bit; PGA entries "
+    "(max|record|, no arithmetic) and S_d(T=0) = 0 are exact; pseudo S_v / S_a accept w = 2 pi/T or the series' own 6.2831853/T (2e-9 / 4e-9); "
+    "against the exact reference evaluated for the library's own w: min(C01 statement tolerance, 256 n eps + 16 eps/(w dt)^3 + 64 eps n dt/T)",
+    "records: float64 ndarrays and their memory-layout variants, python lists, int16 / int32 arrays scaled to the full range with the most "
+    "negative sample = the dtype's minimum (gen.narrow_int); the oracle works on the float64 values the container holds",
     "mid-range clauses: sizes are one per logarithmic bin, placed by a hash of VERIF_SEED, plus sizes aimed at integer literals of the "
     "source under test (generator only); dt in {0.01, 0.005, 2^-7, 0.02, 0.0025}, xi in {0, 0.02, 0.05, 0.1, 0.2}, T/dt in [0.45, 290] ascending "
     "(log-spaced), float64 ndarray records of one family (noise on a non-zero mean + three resonant bursts + optional spike): the record "
@@ -50,11 +63,72 @@ LD = np.longdouble
 MAX_N = 500 if core.tier() == "quick" else 1500
 
 
+def _tol_order(n):
+    """Relative (to the robust scale of the series) difference between two correct double-precision evaluations of the same
+    n-step recurrence that order / block their operations differently: local error <= 4 eps sum|terms| <= 16 eps scale per step,
+    propagated by powers of A whose entries (coordinates u, v/w) are bounded by 1.07 for every xi in [0, 1) -> 2.2 * 16 * n * eps;
+    64 n eps leaves a factor ~2.  Used where the statement relates two entry points ('S_d is max|u| of the response series')."""
+    return 64.0 * max(2, n) * EPS
+
+
+def _tol_lib_w(n, T, dt):
+    """Relative bound between the library series and the exact solution FOR THE SAME angular frequency (6.2831853/T): rounding of
+    the recurrence and of its coefficients (256 n eps: _tol_order plus n * |dA| with |dA| a few eps), the cancellation in the closed-form
+    load coefficients for long periods (16 eps/(w dt)^3, bound of C01-KF1) and the rounding of the period handed to the reference
+    (phase 2 pi eps per cycle: 64 eps n dt/T)."""
+    T = np.asarray(T, dtype=float)
+    wdt = 2 * np.pi / T * dt
+    return 256.0 * max(2, n) * EPS + 16.0 * EPS / wdt ** 3 + 64.0 * EPS * max(2, n) * dt / T
+
+
+def _tol_ref(n, T, dt):
+    """Tolerance against the exact reference evaluated for the library's own angular frequency: the statement tolerance of C01
+    (kept as the ceiling: it is what the statement promises against the true 2 pi solution) or the arithmetic bound, whichever is smaller."""
+    T = np.asarray(T, dtype=float)
+    dur = (n - 1) * dt
+    st = np.where(T / dt >= 1000, ref.tol_c01(dur, T, dt, relaxed=True), ref.tol_c01(dur, T, dt))
+    return np.minimum(st, _tol_lib_w(n, T, dt))
+
+
+REL_SV = 2e-9   # pseudo S_v = w S_d: either 2 pi or the series' own 6.2831853 (1.1e-9 apart) is 'w'
+REL_SA = 4e-9   # pseudo S_a = w^2 S_d likewise
+
+
+def _rec_arg(case, a):
+    """(what is handed to the library, the exact float64 values it stands for): integer-typed (full range of int16 / int32, most
+    negative sample = the dtype's minimum) and list records besides the memory-layout variants of the spec."""
+    how = case.get("rec_as")
+    if how in ("int16", "int32"):
+        return gen.narrow_int(a, how)
+    if how == "list":
+        return [float(v) for v in a], a
+    return gen.as_container(case["rec"], a), a
+
+
+def _perm(case, m):
+    """Order of the (non-zero) periods: ascending, descending or a permutation (a leading 0 stays first)."""
+    how = case.get("order", "asc")
+    if how == "desc":
+        return np.arange(m)[::-1]
+    if how == "shuffle":
+        return np.random.RandomState(case.get("perm_seed", 0) % (2 ** 31 - 1)).permutation(m)
+    return np.arange(m)
+
+
+def _as_periods(P, kind):
+    if kind == "list":
+        return [float(t) for t in P]
+    if kind == "tuple":
+        return tuple(float(t) for t in P)
+    return np.array(P, dtype=float)
+
+
 @st.composite
 def _cases(draw, max_n=None, max_p=8, containers=("ndarray",)):
     spec = draw(gen.record_specs(min_n=2, max_n=max_n or MAX_N, allow_int=["view", "negstride", "readonly"]))
     c = {"rec": spec, "dt": draw(gen.dts(1e-4, 3.0)), "xi": draw(gen.xis()),
-         "lead0": draw(st.integers(0, 3)) == 0, "container": draw(st.sampled_from(list(containers)))}
+         "lead0": draw(st.integers(0, 3)) == 0, "container": draw(st.sampled_from(list(containers))),
+         "rec_as": draw(st.sampled_from([None, None, None, None, None, "int16", "int32", "list"]))}
     # periods straddling 6*dt: mix of a log-uniform family and a family concentrated around 6
     around6 = st.one_of(gen.log_uniform(2.0, 20.0), st.sampled_from([5.999, 6.0, 6.001, 5.5, 6.5]))
     c["ratios"] = draw(st.lists(st.one_of(gen.log_uniform(0.2, 2e4), around6), min_size=1, max_size=max_p))
@@ -127,7 +201,7 @@ def _band(r, T=None, dt=None):
                "long-double exact series within the C01 bound; true S_a == pseudo S_a at xi=0 (1e-8)",
         require={"both-sides-of-6dt": 0.2}, min_nontrivial=0.15)
 def sd_is_peak(case, ctx):
-    a = gen.build(case["rec"])
+    arg, a = _rec_arg(case, gen.build(case["rec"]))  # memory-layout / integer / list variant and the float64 values it holds
     dt, xi = case["dt"], case["xi"]
     _cls(ctx, case, a)
     P = _periods(case)
@@ -136,24 +210,32 @@ def sd_is_peak(case, ctx):
     n = len(a)
     r = np.array(case["ratios"], dtype=float)
     ctx.nt(bool(np.any(a) and np.any(r < 5.99) and np.any(r > 6.01)))
-    ru, rv, ra = ctx.lib(sdof.response_series, a, dt, P, xi)
-    arg = gen.as_container(case["rec"], a)  # memory-layout variant of the same float64 record
-    if case["rec"].get("as"):
+    ru, rv, ra = ctx.lib(sdof.response_series, arg, dt, P, xi)
+    if case["rec"].get("as") and not case.get("rec_as"):
         ctx.cls("as=" + case["rec"]["as"])
+    ctx.cls("rec=" + case["rec_as"] if case.get("rec_as") else None)
     psd, psv, psa = [np.asarray(x) for x in ctx.lib(sdof.pseudo_response_spectra, arg, dt, P, xi)]
     tsd, tsv, tsa = [np.asarray(x) for x in ctx.lib(sdof.true_response_spectra, arg, dt, np.asarray(P), xi)]
-    ctx.equal(psd, np.max(np.abs(ru), axis=1), "pseudo S_d vs max|u| of response_series")
-    ctx.equal(tsd, np.max(np.abs(ru), axis=1), "true S_d vs max|u| of response_series")
-    ctx.equal(tsv, np.max(np.abs(rv), axis=1), "true S_v vs max|v| of response_series")
-    pga = float(np.max(np.abs(a)))
+    # 'S_d is max|u| of the response series': the spectra functions may step / block the recurrence in another order than
+    # response_series, so the relation holds to the rounding of the recurrence (_tol_order), not bit for bit
+    lsu, lsv, lsa = ref.lib_scales(a, dt, T, xi, np.asarray(ru)[s:], np.asarray(rv)[s:])
+    z = np.zeros(s)
+    to = _tol_order(n)
+    ctx.close(psd, np.max(np.abs(ru), axis=1), np.concatenate([z, to * lsu]), "pseudo S_d vs max|u| of response_series")
+    ctx.close(tsd, np.max(np.abs(ru), axis=1), np.concatenate([z, to * lsu]), "true S_d vs max|u| of response_series")
+    ctx.close(tsv, np.max(np.abs(rv), axis=1), np.concatenate([z, to * lsv]), "true S_v vs max|v| of response_series")
+    wt = 2 * np.pi / T
+    ctx.close(psv[s:], wt * psd[s:], REL_SV * wt * psd[s:], "pseudo S_v vs w*S_d")
+    pga = float(np.max(np.abs(a)))  # PGA = max|record|: no arithmetic involved, exact for every implementation
     amax = np.max(np.abs(ra), axis=1)
+    tola = to * lsa * 2 + core.TINY
     for j in range(len(T)):
         b = _band(r[j], T[j], dt)
         if b == "amb":
             ctx.amb()
-            ctx.check(tsa[s + j] in (amax[s + j], pga), "true S_a at T=6dt is neither max|a_total| nor PGA")
+            ctx.check(abs(tsa[s + j] - amax[s + j]) <= tola[j] or tsa[s + j] == pga, "true S_a at T=6dt is neither max|a_total| nor PGA")
         elif b == "above":
-            ctx.check(tsa[s + j] == amax[s + j], "true S_a[%d]=%r != max|a_total|=%r (T/dt=%r)" % (j, tsa[s + j], amax[s + j], r[j]))
+            ctx.check(abs(tsa[s + j] - amax[s + j]) <= tola[j], "true S_a[%d]=%r != max|a_total|=%r (T/dt=%r)" % (j, tsa[s + j], amax[s + j], r[j]))
             if xi == 0:
                 ctx.check(abs(tsa[s + j] - psa[s + j]) <= 1e-8 * max(tsa[s + j], psa[s + j]) + core.TINY,
                           "xi=0: true S_a %r != pseudo S_a %r" % (tsa[s + j], psa[s + j]))
@@ -165,8 +247,7 @@ def sd_is_peak(case, ctx):
     # against the exact series (for the angular frequency the library uses, see ASSUMPTIONS)
     u, v = ref.response(a, dt, ref.library_periods(T), xi)
     su, sv, _, _ = ref.robust_scales(a, dt, T, u, v)
-    dur = (n - 1) * dt
-    tol = np.where(r >= 1000, ref.tol_c01(dur, T, dt, relaxed=True), ref.tol_c01(dur, T, dt))
+    tol = _tol_ref(n, T, dt)
     ctx.close(psd[s:], np.max(np.abs(u), axis=1).astype(float), tol * su, "S_d vs peak of the exact displacement")
     ctx.close(tsv[s:], np.max(np.abs(v), axis=1).astype(float), tol * sv, "true S_v vs peak of the exact velocity")
 
@@ -177,9 +258,10 @@ def sd_is_peak(case, ctx):
                "and T=0; all outputs finite, >= 0, shape (len(periods),)",
         require={"both-sides-of-6dt": 0.2, "periods=list": 0.15, "int-periods+lead0": 0.02}, min_nontrivial=0.15)
 def pseudo_relations(case, ctx):
-    a = gen.build(case["rec"])
+    arg, a = _rec_arg(case, gen.build(case["rec"]))
     dt, xi = case["dt"], case["xi"]
     _cls(ctx, case, a)
+    ctx.cls("rec=" + case["rec_as"] if case.get("rec_as") else None)
     P = _periods(case)
     T = _T(case)
     s = 1 if case["lead0"] else 0
@@ -187,7 +269,7 @@ def pseudo_relations(case, ctx):
     ctx.nt(bool(np.any(a) and np.any(r < 5.99) and np.any(r > 6.01)))
     pga = float(np.max(np.abs(a)))
     for fname, f in (("pseudo_response_spectra", sdof.pseudo_response_spectra), ("true_response_spectra", sdof.true_response_spectra)):
-        out = ctx.lib(f, a, dt, P, xi)
+        out = ctx.lib(f, arg, dt, P, xi)
         ctx.check(len(out) == 3, "%s does not return three spectra" % fname)
         for name, x in zip(("S_d", "S_v", "S_a"), out):
             x = np.asarray(x)
@@ -203,16 +285,16 @@ def pseudo_relations(case, ctx):
                 ctx.check(sa_[s + j] == pga, "%s S_a[%d]=%r != PGA=%r for T/dt=%r" % (fname, j, sa_[s + j], pga, r[j]))
         if fname.startswith("pseudo"):
             w = 2 * np.pi / T
-            ctx.close(sv_[s:], w * sd[s:], 1e-12 * w * sd[s:], "pseudo S_v vs w*S_d")
+            ctx.close(sv_[s:], w * sd[s:], REL_SV * w * sd[s:], "pseudo S_v vs w*S_d")
             for j in range(len(T)):
                 b = _band(r[j], T[j], dt)
                 ctx.cls("T==6dt-exactly" if Fraction(float(T[j])) == 6 * Fraction(float(dt)) else None)
                 want = w[j] ** 2 * sd[s + j]
                 if b == "above":
-                    ctx.check(abs(sa_[s + j] - want) <= 1e-12 * want + core.TINY, "pseudo S_a[%d]=%r != w^2 S_d=%r (T/dt=%r)" % (j, sa_[s + j], want, r[j]))
+                    ctx.check(abs(sa_[s + j] - want) <= REL_SA * want + core.TINY, "pseudo S_a[%d]=%r != w^2 S_d=%r (T/dt=%r)" % (j, sa_[s + j], want, r[j]))
                 elif b == "amb":
                     ctx.amb()
-                    ctx.check(sa_[s + j] == pga or abs(sa_[s + j] - want) <= 1e-12 * want, "pseudo S_a at T=6dt is neither w^2 S_d nor PGA")
+                    ctx.check(sa_[s + j] == pga or abs(sa_[s + j] - want) <= REL_SA * want, "pseudo S_a at T=6dt is neither w^2 S_d nor PGA")
 
 
 # ---------------------------------------------------------------------------
@@ -229,7 +311,13 @@ def _obj_cases(draw):
         ratios.append(ratios[-1] * m)
     return {"rec": spec, "dt": dt, "ratios": ratios, "lead0": draw(st.integers(0, 3)) == 0,
             "min_dt_ratio": draw(st.sampled_from([1, 2, 4, 8])), "xi": draw(st.sampled_from([0.05, 0.0, 0.2, 0.5])),
-            "via": draw(st.sampled_from(["ctor", "gen", "gen-default-xi", "cached-then-ratio", "cached-then-ratio"]))}
+            "via": draw(st.sampled_from(["ctor", "gen", "gen-default-xi", "cached-then-ratio", "cached-then-ratio"])),
+            # the quantifier says 'all period lists' and 'list/tuple/array containers': the smallest period may sit anywhere
+            "order": draw(st.sampled_from(["asc", "shuffle", "desc", "shuffle"])), "perm_seed": draw(st.integers(0, 2 ** 20)),
+            "pcontainer": draw(st.sampled_from(["ndarray", "list", "tuple"])),
+            "rec_as": draw(st.sampled_from([None, None, None, None, "int16", "int32", "list"])),
+            # which of s_d / s_v / s_a is read first (it triggers the lazy computation on a fresh object) and in which order
+            "read_order": draw(st.permutations(["s_d", "s_v", "s_a"]))}
 
 
 def _refined(a, k, hold):
@@ -241,64 +329,59 @@ def _refined(a, k, hold):
     return np.interp(t, np.arange(n), a)
 
 
-@clause(CLAUSES, "object-api", _obj_cases(), quick=600, thorough=1000,
-        rule="AccSignal(values, dt, response_times=P).s_d/.s_v/.s_a and gen_response_spectrum(P, xi, min_dt_ratio in {1,2,4,8}); ascending "
-             "period lists whose first period is below / above 20*dt; non-trivial = non-zero record and h* < dt (interpolation required)",
-        oracle="reference model: exact equality with the array function when h* >= dt; otherwise existence of an integer refinement "
-               "k >= dt/h* whose S_d sandwich [no tail, held tail] contains the object's S_d (1e-9 of scale); S_v == w S_d; S_a in {w^2 S_d, PGA}; "
-               "S_d >= raw S_d - refinement tolerance",
-        require={"interp": 0.3, "no-interp": 0.1}, min_nontrivial=0.2)
-def object_api(case, ctx):
-    a = gen.build(case["rec"])
-    dt = case["dt"]
-    T = _T(case)
-    P = np.concatenate([[0.0], T]) if case["lead0"] else T.copy()
-    s = 1 if case["lead0"] else 0
-    ratio = case["min_dt_ratio"]
-    via = case["via"]
-    xi = case["xi"]
-    if via == "ctor":
-        ratio, xi = 4, 0.05
-        asig = ctx.lib(eqsig.AccSignal, a, dt, response_times=P)
-    elif via == "gen":
-        asig = ctx.lib(eqsig.AccSignal, a, dt)
-        ctx.lib(asig.gen_response_spectrum, response_times=P, xi=xi, min_dt_ratio=ratio)
-    elif via == "cached-then-ratio":
-        # spectra are first read lazily (default ratio 4) and only then requested at another min_dt_ratio / damping, without
-        # passing the periods again: the request must be honoured, not answered from the cache
-        asig = ctx.lib(eqsig.AccSignal, a, dt, response_times=P)
-        _ = ctx.lib(lambda: asig.s_a)
-        ctx.lib(asig.generate_response_spectrum, xi=xi, min_dt_ratio=ratio)
-    else:
-        xi = 0.05
-        asig = ctx.lib(eqsig.AccSignal, a, dt)
-        ctx.lib(asig.generate_response_spectrum, response_times=P, min_dt_ratio=ratio)
-    sd = np.asarray(ctx.lib(lambda: asig.s_d))
-    sv = np.asarray(ctx.lib(lambda: asig.s_v))
-    sa = np.asarray(ctx.lib(lambda: asig.s_a))
-    ctx.cls("via=" + via, "ratio=%d" % ratio, "lead0" if s else None)
+K_FINER = (3, 4, 6, 8, 16)  # besides [kmin, 2 kmin + 1]: integer multiples of the coarsest admissible refinement ('no coarser than')
+
+
+def _k_candidates(kmin):
+    ks = list(range(kmin, 2 * kmin + 2))
+    for m in K_FINER:
+        if m * kmin not in ks:
+            ks.append(m * kmin)
+    return ks
+
+
+def _read(ctx, asig, order):
+    """Read the three spectra in the given order (the first read of a fresh / invalidated object triggers the lazy computation);
+    returns them as (s_d, s_v, s_a)."""
+    got = {}
+    for name in order:
+        got[name] = ctx.lib(lambda nm=name: getattr(asig, nm))
+    ctx.cls("first-read=" + order[0])
+    for name in ("s_d", "s_v", "s_a"):
+        ctx.check(got[name] is not None, "AccSignal.%s is None (read order %s)" % (name, "/".join(order)))
+    return [np.asarray(got[k]) for k in ("s_d", "s_v", "s_a")]
+
+
+def _small_object_oracle(ctx, a, dt, P, xi, ratio, sd, sv, sa, what=""):
+    """Object-API sentence for one reading; P = periods in the order given to the object (0 only as the first entry)."""
+    P = np.asarray(P, dtype=float)
+    s = 1 if P[0] == 0 else 0
+    T = P[s:]
+    n = len(a)
     for name, x in (("s_d", sd), ("s_v", sv), ("s_a", sa)):
-        ctx.shape(x, (len(P),), "AccSignal." + name)
-        ctx.finite(x, "AccSignal." + name)
-        ctx.check(bool(np.all(x >= 0)), "AccSignal.%s negative" % name)
-    hstar = max(T[0] / 20.0, dt / ratio)
+        ctx.shape(x, (len(P),), "AccSignal." + name + what)
+        ctx.finite(x, "AccSignal." + name + what)
+        ctx.check(bool(np.all(x >= 0)), "AccSignal.%s%s negative" % (name, what))
+    hstar = max(float(np.min(T)) / 20.0, dt / ratio)
     raw = [np.asarray(x) for x in sdof.pseudo_response_spectra(a, dt, P, xi)]
     pga = float(np.max(np.abs(a)))
     w = 2 * np.pi / T
-    if hstar >= dt:
-        ctx.cls("no-interp")
-        ctx.nt(False)
-        ctx.equal(sd, raw[0], "AccSignal.s_d vs array function on the raw record (no interpolation needed)")
-        ctx.equal(sv, raw[1], "AccSignal.s_v vs array function on the raw record")
-        ctx.equal(sa, raw[2], "AccSignal.s_a vs array function on the raw record")
-        return
-    ctx.cls("interp")
-    ctx.nt(bool(np.any(a)))
-    kmin = int(math.ceil(dt / hstar * (1 - 1e-12)))
     ru, rv, _ = sdof.response_series(a, dt, T, xi)
     su, _, _ = ref.lib_scales(a, dt, T, xi, ru, rv)
+    z = np.zeros(s)
+    if hstar >= dt:
+        ctx.cls("no-interp")
+        # equal to the array function on the raw record up to the rounding of a differently ordered recurrence
+        to = _tol_order(n)
+        ctx.close(sd, raw[0], np.concatenate([z, to * su]), "AccSignal.s_d%s vs array function on the raw record (no interpolation needed)" % what)
+        ctx.close(sv, raw[1], np.concatenate([z, to * su * w + REL_SV * raw[1][s:]]), "AccSignal.s_v%s vs array function on the raw record" % what)
+        tsa = np.where(raw[2][s:] == pga, 0.0, to * su * w ** 2 + REL_SA * raw[2][s:])
+        ctx.close(sa, raw[2], np.concatenate([z, tsa]), "AccSignal.s_a%s vs array function on the raw record" % what)
+        return False
+    ctx.cls("interp")
+    kmin = int(math.ceil(dt / hstar * (1 - 1e-12)))
     found = None
-    for k in range(kmin, 2 * kmin + 2):
+    for k in _k_candidates(kmin):
         lo = np.asarray(sdof.pseudo_response_spectra(_refined(a, k, False), dt / k, P, xi)[0])
         hi = np.asarray(sdof.pseudo_response_spectra(_refined(a, k, True), dt / k, P, xi)[0])
         slack = 1e-9 * su
@@ -306,27 +389,74 @@ def object_api(case, ctx):
             found = k
             break
     ctx.check(found is not None,
-              "AccSignal S_d %r is not the spectrum of the record integrated at any step dt/k, k in [%d, %d] (h*=%.4g, dt=%.4g, min_dt_ratio=%d)" % (
-                  sd.tolist(), kmin, 2 * kmin + 1, hstar, dt, ratio))
+              "AccSignal S_d%s %r is not the spectrum of the record integrated at any step dt/k, k in %r (h*=%.4g, dt=%.4g, min_dt_ratio=%d, "
+              "periods %r)" % (what, sd.tolist(), _k_candidates(kmin), hstar, dt, ratio, P.tolist()))
     ctx.cls("k=kmin" if found == kmin else "k>kmin")
     if s:
-        ctx.check(sd[0] == 0 and sv[0] == 0 and sa[0] == pga, "T=0 entry of object spectra: %r %r %r" % (sd[0], sv[0], sa[0]))
-    ctx.close(sv[s:], w * sd[s:], 1e-12 * w * sd[s:], "object S_v vs w*S_d")
+        ctx.check(sd[0] == 0 and sv[0] == 0 and sa[0] == pga, "T=0 entry of object spectra%s: %r %r %r" % (what, sd[0], sv[0], sa[0]))
+    ctx.close(sv[s:], w * sd[s:], REL_SV * w * sd[s:], "object S_v%s vs w*S_d" % what)
     for j in range(len(T)):
         want = w[j] ** 2 * sd[s + j]
-        is_pseudo = abs(sa[s + j] - want) <= 1e-12 * want + core.TINY
+        is_pseudo = abs(sa[s + j] - want) <= REL_SA * want + core.TINY
         rj = T[j] / dt
         if _band(rj, T[j], dt) == "above":
-            ctx.check(is_pseudo, "object S_a[%d]=%r != w^2 S_d=%r although T >= 6 dt" % (j, sa[s + j], want))
+            ctx.check(is_pseudo, "object S_a%s[%d]=%r != w^2 S_d=%r although T >= 6 dt" % (what, j, sa[s + j], want))
         else:
-            ctx.check(is_pseudo or sa[s + j] == pga, "object S_a[%d]=%r is neither w^2 S_d=%r nor PGA=%r" % (j, sa[s + j], want, pga))
+            ctx.check(is_pseudo or sa[s + j] == pga, "object S_a%s[%d]=%r is neither w^2 S_d=%r nor PGA=%r" % (what, j, sa[s + j], want, pga))
             if T[j] < 6 * (dt / found) * (1 - 1e-9):
-                ctx.check(sa[s + j] == pga, "object S_a[%d]=%r != PGA=%r for T below 6 integration steps" % (j, sa[s + j], pga))
-    # never below the values computed from the raw samples (up to the refinement-invariance tolerance)
-    dur = (len(a) - 1) * dt
-    tol = ref.tol_c01(dur, T, dt, relaxed=True) + ref.tol_c01(dur, T, dt / found, relaxed=True)
+                ctx.check(sa[s + j] == pga, "object S_a%s[%d]=%r != PGA=%r for T below 6 integration steps" % (what, j, sa[s + j], pga))
+    # never below the values computed from the raw samples: the raw grid is a subset of the refined grid and the refinement of a
+    # piecewise-linear record is exact, so only the rounding of the two recurrences separates them
+    tol = np.minimum(ref.tol_c01((n - 1) * dt, T, dt, relaxed=True) * 2, _tol_lib_w(n, T, dt) + _tol_lib_w(n * found, T, dt / found))
     ctx.check(bool(np.all(sd[s:] >= raw[0][s:] - tol * su - core.TINY)),
-              "object S_d %r below the raw-sample S_d %r" % (sd.tolist(), raw[0].tolist()))
+              "object S_d%s %r below the raw-sample S_d %r" % (what, sd.tolist(), raw[0].tolist()))
+    return True
+
+
+@clause(CLAUSES, "object-api", _obj_cases(), quick=600, thorough=1000,
+        rule="AccSignal(values, dt, response_times=P).s_d/.s_v/.s_a and gen_response_spectrum(P, xi, min_dt_ratio in {1,2,4,8}); period "
+             "lists ascending / descending / shuffled (optional 0 first) as ndarray / list / tuple, smallest period below / above 20*dt; "
+             "float64, int16 / int32 (full range) and list records; the three spectra read in a drawn order, every lazily computed value "
+             "checked; non-trivial = non-zero record and h* < dt (interpolation required)",
+        oracle="reference model: agreement with the array function (rounding of a reordered recurrence) when h* >= dt; otherwise existence of an "
+               "integer refinement k in [kmin, 2 kmin + 1] or k = 3, 4, 6, 8, 16 x kmin (kmin = ceil(dt/h*), h* from the SMALLEST non-zero period) whose "
+               "S_d sandwich [no tail, held tail] contains the object's S_d (1e-9 of scale); S_v == w S_d (2e-9: w = 2 pi/T or 6.2831853/T); "
+               "S_a in {w^2 S_d, PGA}; S_d >= raw S_d - rounding",
+        require={"interp": 0.3, "no-interp": 0.1, "order=shuffle": 0.2, "first-read=s_v": 0.1, "first-read=s_a": 0.1}, min_nontrivial=0.2)
+def object_api(case, ctx):
+    arg, a = _rec_arg(case, gen.build(case["rec"]))
+    dt = case["dt"]
+    T0 = _T(case)
+    T = T0[_perm(case, len(T0))]
+    P = np.concatenate([[0.0], T]) if case["lead0"] else T.copy()
+    Parg = _as_periods(P, case["pcontainer"])
+    ratio = case["min_dt_ratio"]
+    via = case["via"]
+    xi = case["xi"]
+    ro = list(case["read_order"])
+    ctx.cls("via=" + via, "lead0" if case["lead0"] else None, "order=" + case["order"], "periods=" + case["pcontainer"],
+            "rec=" + case["rec_as"] if case.get("rec_as") else None)
+    if via == "ctor":
+        ratio, xi = 4, 0.05
+        asig = ctx.lib(eqsig.AccSignal, arg, dt, response_times=Parg)
+    elif via == "gen":
+        asig = ctx.lib(eqsig.AccSignal, arg, dt)
+        ctx.lib(asig.gen_response_spectrum, response_times=Parg, xi=xi, min_dt_ratio=ratio)
+    elif via == "cached-then-ratio":
+        # spectra are first read lazily (default damping and ratio) - and looked at -, then requested at another min_dt_ratio /
+        # damping without passing the periods again: the request must be honoured, not answered from the cache
+        asig = ctx.lib(eqsig.AccSignal, arg, dt, response_times=Parg)
+        sd, sv, sa = _read(ctx, asig, ro)
+        _small_object_oracle(ctx, a, dt, P, 0.05, 4, sd, sv, sa, " (lazy read)")
+        ctx.lib(asig.generate_response_spectrum, xi=xi, min_dt_ratio=ratio)
+        ro = ro[1:] + ro[:1]
+    else:
+        xi = 0.05
+        asig = ctx.lib(eqsig.AccSignal, arg, dt)
+        ctx.lib(asig.generate_response_spectrum, response_times=Parg, min_dt_ratio=ratio)
+    ctx.cls("ratio=%d" % ratio)
+    sd, sv, sa = _read(ctx, asig, ro)
+    ctx.nt(bool(_small_object_oracle(ctx, a, dt, P, xi, ratio, sd, sv, sa) and np.any(a)))
 
 
 # ---------------------------------------------------------------------------
@@ -388,7 +518,11 @@ def dense_long(case, ctx):
 @st.composite
 def _energy_cases(draw):
     c = draw(_cases(max_n=min(MAX_N, 800), max_p=5))
-    c["periods_arg"] = draw(st.sampled_from(["explicit", "attribute"]))
+    c["periods_arg"] = draw(st.sampled_from(["explicit", "attribute", "attribute-setter"]))
+    c["order"] = draw(st.sampled_from(["asc", "shuffle", "desc"]))
+    c["perm_seed"] = draw(st.integers(0, 2 ** 20))
+    c["pcontainer"] = draw(st.sampled_from(["ndarray", "list", "tuple"]))
+    c["rec_as"] = None
     return c
 
 
@@ -400,16 +534,23 @@ def _energy_cases(draw):
 def energy(case, ctx):
     a = gen.build(case["rec"])
     dt, xi = case["dt"], case["xi"]
-    T = _T(case)
+    pm = _perm(case, len(case["ratios"]))
+    T = _T(case)[pm]
     n = len(a)
-    r = np.array(case["ratios"], dtype=float)
-    ctx.cls(gen.size_class(n), "periods=" + case["periods_arg"], "xi=0" if xi == 0 else None)
+    r = np.array(case["ratios"], dtype=float)[pm]
+    ctx.cls(gen.size_class(n), "periods=" + case["periods_arg"], "xi=0" if xi == 0 else None, "order=" + case.get("order", "asc"),
+            "container=" + case.get("pcontainer", "ndarray"))
     ctx.nt(bool(np.any(a)))
+    Targ = _as_periods(T, case.get("pcontainer", "ndarray"))
     if case["periods_arg"] == "explicit":
         asig = eqsig.AccSignal(a, dt)
-        kw = {"periods": T}
+        kw = {"periods": Targ}
+    elif case["periods_arg"] == "attribute-setter":  # the setter keeps a list / tuple as it is
+        asig = eqsig.AccSignal(a, dt)
+        asig.response_times = Targ
+        kw = {}
     else:
-        asig = eqsig.AccSignal(a, dt, response_times=T)
+        asig = eqsig.AccSignal(a, dt, response_times=Targ)
         kw = {}
     e_end = np.asarray(ctx.lib(sdof.calc_input_energy_spectrum, asig, xi=xi, **kw))
     e_ser = np.asarray(ctx.lib(sdof.calc_input_energy_spectrum, asig, xi=xi, series=True, **kw))
@@ -431,8 +572,7 @@ def energy(case, ctx):
     # against the exact velocity (for the angular frequency the library uses, see ASSUMPTIONS)
     u, v = ref.response(a, dt, ref.library_periods(T), xi)
     su, sv, _, _ = ref.robust_scales(a, dt, T, u, v)
-    dur = (n - 1) * dt
-    tol = np.where(r >= 1000, ref.tol_c01(dur, T, dt, relaxed=True), ref.tol_c01(dur, T, dt))
+    tol = _tol_ref(n, T, dt)
     eref = np.sum(a.astype(LD)[None, :] * v * LD(dt), axis=1)
     ctx.close(e_end, eref, tol * sv * float(np.sum(np.abs(a))) * dt + EPS * (n + 8) * sabs, "input energy vs sum over the exact velocity series")
     # sign
@@ -450,7 +590,8 @@ def energy(case, ctx):
 def _si_cases(draw):
     return {"rec": draw(gen.record_specs(min_n=2, max_n=300)), "dt": draw(gen.dts(1e-3, 0.1)),
             "xi": draw(st.sampled_from([0.05, 0.0, 0.2])), "default_periods": draw(st.booleans()),
-            "p0": draw(st.floats(0.05, 0.5, allow_nan=False)), "np": draw(st.integers(2, 30))}
+            "p0": draw(st.floats(0.05, 0.5, allow_nan=False)), "np": draw(st.integers(2, 30)),
+            "pcontainer": draw(st.sampled_from(["ndarray", "list", "tuple"])), "xi_omitted": draw(st.integers(0, 3)) == 0}
 
 
 @clause(CLAUSES, "intensities", _si_cases(), quick=60, thorough=200,
@@ -466,9 +607,14 @@ def intensities(case, ctx):
         pa, pv, kw = np.arange(0.1, 1.51, 0.01), np.arange(0.1, 2.51, 0.01), {}
     else:
         pa = pv = case["p0"] + 0.01 * np.arange(case["np"])
-        kw = {"periods": pa}
-    asi = ctx.lib(im.calc_asi, asig, xi=xi, **kw)
-    vsi = ctx.lib(im.calc_vsi, asig, xi=xi, **kw)
+        kw = {"periods": _as_periods(pa, case.get("pcontainer", "ndarray"))}
+        ctx.cls("container=" + case.get("pcontainer", "ndarray"))
+    if case.get("xi_omitted"):
+        xi = 0.05
+    else:
+        kw["xi"] = xi
+    asi = ctx.lib(im.calc_asi, asig, **kw)
+    vsi = ctx.lib(im.calc_vsi, asig, **kw)
     _, _, psa = sdof.pseudo_response_spectra(a, dt, pa, xi)
     _, psv, _ = sdof.pseudo_response_spectra(a, dt, pv, xi)
     want_a = float(np.max(0.01 * cumulative_trapezoid(np.abs(psa)))) / 9.81
@@ -629,9 +775,7 @@ def _exact_rows(a, dt, T, xi, idx):
     Ti = np.asarray(T, dtype=float)[idx]
     u, v = scanref.response_exact(a, dt, ref.library_periods(Ti), xi)
     su, sv, _, _ = ref.robust_scales(a, dt, Ti, u, v)
-    dur = (len(a) - 1) * dt
-    r = Ti / dt
-    tol = np.where(r >= 1000, ref.tol_c01(dur, Ti, dt, relaxed=True), ref.tol_c01(dur, Ti, dt)) + scanref.scan_slack(len(a))
+    tol = _tol_ref(len(a), Ti, dt) + scanref.scan_slack(len(a))
     return u, v, su, sv, tol
 
 
@@ -666,9 +810,9 @@ def _pseudo_rules(ctx, name, T, dt, s, sd, sv, sa, pga, step=None):
     w = 2 * np.pi / T
     if s:
         ctx.check(sd[0] == 0 and sv[0] == 0 and sa[0] == pga, "%s at T=0: S_d=%r S_v=%r S_a=%r (PGA %r)" % (name, sd[0], sv[0], sa[0], pga))
-    ctx.close(sv[s:], w * sd[s:], 1e-12 * w * sd[s:], "%s S_v vs w*S_d" % name)
+    ctx.close(sv[s:], w * sd[s:], REL_SV * w * sd[s:], "%s S_v vs w*S_d" % name)
     want = w ** 2 * sd[s:]
-    is_pseudo = np.abs(sa[s:] - want) <= 1e-12 * want + core.TINY
+    is_pseudo = np.abs(sa[s:] - want) <= REL_SA * want + core.TINY
     is_pga = sa[s:] == pga
     below, above, amb = _bands(T, dt)
     if np.any(amb):
@@ -713,6 +857,7 @@ def _array_case_list(tier):
         c = {"kind": kind, "n": int(n), "p": int(p), "fns": list(fns), "seed": _hh(tg, "arr", kind, i, n, p) % (2 ** 31 - 1),
              "dt": _pick(MID_DTS, tg, "dt", kind, i), "xi": _pick(MID_XIS, tg, "xi", kind, i),
              "spike": MID_SPIKES[i % len(MID_SPIKES)], "container": _pick(MID_CONTAINERS, tg, "cont", kind, i), "lead0": bool(i % 2)}
+        c["rec_as"] = _pick([None, "int32", None, "list", "int16", None], tg, "recas", kind, i) if n <= 20000 else None
         c.update(kw)
         cases.append(c)
 
@@ -772,8 +917,17 @@ def mid_range(case, ctx):
     npd = len(T) + (1 if lead0 else 0)
     s = 1 if lead0 else 0
     a = _mid_record(n, case["seed"], ratios, case["spike"])
+    arg = a
+    if case.get("rec_as") in ("int16", "int32"):
+        arg, a = gen.narrow_int(a, case["rec_as"])
+    elif case.get("rec_as") == "list":
+        arg = [float(x) for x in a]
+    ctx.cls("rec=" + case["rec_as"] if case.get("rec_as") else None)
     P = _container(T, case["container"], lead0)
     fns = case["fns"]
+    to = _tol_order(n)
+    floor_u = np.concatenate([np.zeros(1 if lead0 else 0), float(np.max(np.abs(a))) * np.minimum(dt * dt / 2, (T / (2 * np.pi)) ** 2)])
+    wfull = np.concatenate([np.zeros(1 if lead0 else 0), 2 * np.pi / T])
     ctx.cls("kind=" + case["kind"], "n>=%d" % (10 ** int(math.log10(n))), "p>=%d" % (10 ** int(math.log10(max(1, len(T))))),
             "cells>=1e%d" % int(math.log10(n * npd)), "lead0" if lead0 else None, "spike=" + case["spike"], "periods=" + case["container"],
             "xi=0" if xi == 0 else None, *["fn=" + f for f in fns])
@@ -788,7 +942,7 @@ def mid_range(case, ctx):
     below_i, above_i, amb_i = _bands(T[idx], dt)
     ru = rv = ra = None
     if "series" in fns:
-        ru, rv, ra = [np.asarray(x) for x in ctx.lib(sdof.response_series, a, dt, P, xi)]
+        ru, rv, ra = [np.asarray(x) for x in ctx.lib(sdof.response_series, arg, dt, P, xi)]
         for name, x in (("displacement", ru), ("velocity", rv), ("acceleration", ra)):
             ctx.shape(x, (npd, n), "response " + name)
         ctx.finite(ru, "response displacement")
@@ -807,13 +961,14 @@ def mid_range(case, ctx):
             ctx.close(ra[s + i0:s + i1], -(t1 + t2), 1e-8 * scale + 0 * t1, "third series vs -(2 xi w v + w^2 u)")
     psd = tsd = None
     if "pseudo" in fns:
-        psd, psv, psa = _common_spectra_checks(ctx, "pseudo_response_spectra", ctx.lib(sdof.pseudo_response_spectra, a, dt, P, xi), npd)
+        psd, psv, psa = _common_spectra_checks(ctx, "pseudo_response_spectra", ctx.lib(sdof.pseudo_response_spectra, arg, dt, P, xi), npd)
         ctx.close(psd[s + idx], pu, tol * su, "pseudo S_d vs peak of the exact displacement")
         _pseudo_rules(ctx, "pseudo_response_spectra", T, dt, s, psd, psv, psa, pga)
         if ru is not None:
-            ctx.equal(psd, np.max(np.abs(ru), axis=1), "pseudo S_d vs max|u| of response_series")
+            mu = np.max(np.abs(ru), axis=1)
+            ctx.close(psd, mu, to * np.maximum(mu, floor_u), "pseudo S_d vs max|u| of response_series")
     if "true" in fns:
-        tsd, tsv, tsa = _common_spectra_checks(ctx, "true_response_spectra", ctx.lib(sdof.true_response_spectra, a, dt, P, xi), npd)
+        tsd, tsv, tsa = _common_spectra_checks(ctx, "true_response_spectra", ctx.lib(sdof.true_response_spectra, arg, dt, P, xi), npd)
         ctx.close(tsd[s + idx], pu, tol * su, "true S_d vs peak of the exact displacement")
         ctx.close(tsv[s + idx], pv, tol * sv, "true S_v vs peak of the exact velocity")
         below, above, amb = _bands(T, dt)
@@ -835,17 +990,22 @@ def mid_range(case, ctx):
             ctx.fail("true S_a[%d]=%r vs peak total acceleration of the exact series %r (tol %.3g, T/dt=%r)" % (
                 idx[j], tsa[s + idx[j]], at[j], tol_a[j], ratios[idx[j]]))
         if ru is not None:
-            ctx.equal(tsd, np.max(np.abs(ru), axis=1), "true S_d vs max|u| of response_series")
-            ctx.equal(tsv, np.max(np.abs(rv), axis=1), "true S_v vs max|v| of response_series")
+            mu = np.max(np.abs(ru), axis=1)
+            mv = np.max(np.abs(rv), axis=1)
+            scu = np.maximum(np.maximum(mu, floor_u), np.where(wfull > 0, mv / np.where(wfull > 0, wfull, 1.0), 0.0))
+            ctx.close(tsd, mu, to * scu, "true S_d vs max|u| of response_series")
+            ctx.close(tsv, mv, to * scu * wfull, "true S_v vs max|v| of response_series")
             amax = np.max(np.abs(ra), axis=1)
-            bad = above & ~(tsa[s:] == amax[s:])
+            tola = 2 * to * scu * wfull ** 2 * (1 + 2 * xi) + core.TINY
+            near = np.abs(tsa - amax) <= tola
+            bad = above & ~near[s:]
             if np.any(bad):
                 j = int(np.argmax(bad))
                 ctx.fail("true S_a[%d]=%r != max|a_total|=%r (T/dt=%r)" % (j, tsa[s + j], amax[s + j], ratios[j]))
-            bad = amb & ~((tsa[s:] == amax[s:]) | (tsa[s:] == pga))
+            bad = amb & ~(near[s:] | (tsa[s:] == pga))
             ctx.check(not np.any(bad), "true S_a at T=6dt is neither max|a_total| nor PGA")
         if psd is not None:
-            ctx.equal(tsd, psd, "true S_d vs pseudo S_d")
+            ctx.close(tsd, psd, to * np.maximum(psd, floor_u), "true S_d vs pseudo S_d")
             if xi == 0:
                 d = np.abs(tsa[s:] - psa[s:]) <= 1e-8 * np.maximum(tsa[s:], psa[s:]) + core.TINY
                 bad = above & ~d
@@ -874,15 +1034,18 @@ def _check_object(ctx, a, dt, P, xi, ratio, spectra, seed, what=""):
     raw = [np.asarray(x) for x in sdof.pseudo_response_spectra(a, dt, P, xi)]
     if hstar >= dt:
         ctx.cls("no-interp")
-        ctx.equal(sd, raw[0], name + ".s_d vs array function on the raw record (no interpolation needed)")
-        ctx.equal(sv, raw[1], name + ".s_v vs array function on the raw record")
-        ctx.equal(sa, raw[2], name + ".s_a vs array function on the raw record")
+        to = _tol_order(n)
+        w0 = np.concatenate([np.zeros(s), 2 * np.pi / T])
+        sc = np.concatenate([np.zeros(s), np.maximum(raw[0][s:], pga * np.minimum(dt * dt / 2, (T / (2 * np.pi)) ** 2))])
+        ctx.close(sd, raw[0], to * sc, name + ".s_d vs array function on the raw record (no interpolation needed)")
+        ctx.close(sv, raw[1], to * sc * w0 + REL_SV * raw[1], name + ".s_v vs array function on the raw record")
+        ctx.close(sa, raw[2], np.where(raw[2] == pga, 0.0, to * sc * w0 ** 2 + REL_SA * raw[2]), name + ".s_a vs array function on the raw record")
         return 1
     ctx.cls("interp")
     kmin = int(math.ceil(dt / hstar * (1 - 1e-12)))
     idx = _sample_rows(len(T), REF_CELLS // (n * kmin), seed)
     found = None
-    for k in range(kmin, 2 * kmin + 2):
+    for k in _k_candidates(kmin):
         ak = _refined(a, k, True)
         u, _, su, _, tol = _exact_rows(ak, dt / k, T, xi, idx)
         au = np.abs(u)
@@ -892,15 +1055,15 @@ def _check_object(ctx, a, dt, P, xi, ratio, spectra, seed, what=""):
             found = k
             break
     ctx.check(found is not None,
-              "%s S_d at rows %r = %r is not the peak of the exact response of the record refined to any step dt/k, k in [%d, %d] "
+              "%s S_d at rows %r = %r is not the peak of the exact response of the record refined to any step dt/k, k in %r "
               "(h*=%.4g, dt=%.4g, min_dt_ratio=%r, %d samples, %d periods)" % (
-                  name, idx[:6].tolist(), sd[s + idx][:6].tolist(), kmin, 2 * kmin + 1, hstar, dt, ratio, n, len(P)))
+                  name, idx[:6].tolist(), sd[s + idx][:6].tolist(), _k_candidates(kmin), hstar, dt, ratio, n, len(P)))
     ctx.cls("k=kmin" if found == kmin else "k>kmin")
     _pseudo_rules(ctx, name, T, dt, s, sd, sv, sa, pga, step=dt / found)
     dur = (n - 1) * dt
     w = 2 * np.pi / T
     su_all = np.maximum(raw[0][s:], pga * np.minimum(dt * dt / 2, 1.0 / w ** 2))
-    tolr = ref.tol_c01(dur, T, dt, relaxed=True) + ref.tol_c01(dur, T, dt / found, relaxed=True)
+    tolr = np.minimum(ref.tol_c01(dur, T, dt, relaxed=True) * 2, _tol_lib_w(n, T, dt) + _tol_lib_w(n * found, T, dt / found))
     bad = ~(sd[s:] >= raw[0][s:] - tolr * su_all - core.TINY)
     if np.any(bad):
         j = int(np.argmax(bad))
@@ -912,7 +1075,7 @@ def _check_object(ctx, a, dt, P, xi, ratio, spectra, seed, what=""):
             # some row differs from the array function at the step found on the sampled rows: decide by the oracle of clause
             # object-api on every row (sandwich between the array function without / with the held tail, 1e-9 of scale)
             ok2 = False
-            for k in range(kmin, 2 * kmin + 2):
+            for k in _k_candidates(kmin):
                 lo = np.asarray(sdof.pseudo_response_spectra(_refined(a, k, False), dt / k, P, xi)[0])
                 hi = lib[0] if k == found else np.asarray(sdof.pseudo_response_spectra(_refined(a, k, True), dt / k, P, xi)[0])
                 slack = 1e-9 * su_all
@@ -968,8 +1131,12 @@ def _object_enum(tier, shard, nshards):
     return _shard(_object_case_list(tier), shard, nshards)
 
 
-def _read_spectra(ctx, asig):
-    return [np.asarray(ctx.lib(lambda: asig.s_d)), np.asarray(ctx.lib(lambda: asig.s_v)), np.asarray(ctx.lib(lambda: asig.s_a))]
+READ_ORDERS = [("s_d", "s_v", "s_a"), ("s_v", "s_a", "s_d"), ("s_a", "s_d", "s_v"), ("s_v", "s_d", "s_a"), ("s_a", "s_v", "s_d"), ("s_d", "s_a", "s_v")]
+
+
+def _read_spectra(ctx, asig, key=0):
+    """The three spectra read in a hash-chosen order (the first read triggers the lazy computation); every value is returned and checked."""
+    return _read(ctx, asig, READ_ORDERS[int(key) % len(READ_ORDERS)])
 
 
 @enum_clause(CLAUSES, "mid-range-object", _object_enum, quick_shards=4,
@@ -989,7 +1156,11 @@ def mid_range_object(case, ctx):
     n, dt, xi, ratio, via = case["n"], case["dt"], case["xi"], case["min_dt_ratio"], case["via"]
     ratios = _object_ratios(case)
     T = ratios * dt
+    if case["kind"] != "history":  # the smallest period anywhere in the list; list / tuple containers
+        T = T[_perm({"order": ["asc", "shuffle", "desc", "shuffle"][case["seed"] % 4], "perm_seed": case["seed"]}, len(T))]
+        ctx.cls("order=" + ["asc", "shuffle", "desc", "shuffle"][case["seed"] % 4])
     P = np.concatenate([[0.0], T]) if case["lead0"] else T.copy()
+    Parg = _as_periods(P, ["ndarray", "list", "tuple"][(case["seed"] // 4) % 3]) if case["kind"] != "history" else P
     a = _mid_record(n, case["seed"], ratios, case["spike"])
     ctx.cls("kind=" + case["kind"], "n>=%d" % (10 ** int(math.log10(n))), "p>=%d" % (10 ** int(math.log10(len(P)))),
             "ratio=%d" % ratio, "lead0" if case["lead0"] else None)
@@ -997,40 +1168,45 @@ def mid_range_object(case, ctx):
     if case["kind"] == "history":
         ctx.cls("cells>=1e%d" % int(math.log10(n * len(P) * ratio)))
         asig = ctx.lib(eqsig.AccSignal, a, dt, response_times=P)
-        _check_object(ctx, a, dt, P, 0.05, 4, _read_spectra(ctx, asig), case["seed"], " (lazy read)")
+        _check_object(ctx, a, dt, P, 0.05, 4, _read_spectra(ctx, asig, case["seed"]), case["seed"], " (lazy read)")
         ctx.lib(asig.generate_response_spectrum, xi=0.05, min_dt_ratio=ratio)
-        _check_object(ctx, a, dt, P, 0.05, ratio, _read_spectra(ctx, asig), case["seed"] + 1, " (after min_dt_ratio=%d without periods)" % ratio)
+        _check_object(ctx, a, dt, P, 0.05, ratio, _read_spectra(ctx, asig, case["seed"] + 1), case["seed"] + 1, " (after min_dt_ratio=%d without periods)" % ratio)
         P2 = P[:1 + case["p2"]] if case["lead0"] else P[1:1 + case["p2"]]  # another (shorter) ascending list with another smallest period
         asig.response_times = P2
         # lazy read after the explicit request: the default ratio 4 is promised; a finer step is admissible ('no coarser than')
-        _check_object(ctx, a, dt, P2, 0.05, 4, _read_spectra(ctx, asig), case["seed"] + 2, " (lazy read after new response_times)")
+        _check_object(ctx, a, dt, P2, 0.05, 4, _read_spectra(ctx, asig, case["seed"] + 2), case["seed"] + 2, " (lazy read after new response_times)")
         a2 = _mid_record(n + 7, case["seed"] + 5, ratios, "mid")
         ctx.lib(asig.reset_values, a2)
-        _check_object(ctx, a2, dt, P2, 0.05, 4, _read_spectra(ctx, asig), case["seed"] + 3, " (lazy read after reset_values)")
+        _check_object(ctx, a2, dt, P2, 0.05, 4, _read_spectra(ctx, asig, case["seed"] + 3), case["seed"] + 3, " (lazy read after reset_values)")
         return
     ctx.cls("via=" + via)
     if via == "ctor":
         ratio, xi = 4, 0.05
-        asig = ctx.lib(eqsig.AccSignal, a, dt, response_times=P)
+        asig = ctx.lib(eqsig.AccSignal, a, dt, response_times=Parg)
     elif via == "gen":
         asig = ctx.lib(eqsig.AccSignal, a, dt)
-        ctx.lib(asig.gen_response_spectrum, response_times=P, xi=xi, min_dt_ratio=ratio)
+        ctx.lib(asig.gen_response_spectrum, response_times=Parg, xi=xi, min_dt_ratio=ratio)
     elif via == "cached-then-ratio":
-        asig = ctx.lib(eqsig.AccSignal, a, dt, response_times=P)
-        _ = ctx.lib(lambda: asig.s_a)
+        asig = ctx.lib(eqsig.AccSignal, a, dt, response_times=Parg)
+        first = _read_spectra(ctx, asig, case["seed"])  # the lazily computed values are looked at (rules on all rows; cheap)
+        fs = 1 if case["lead0"] else 0
+        _pseudo_rules(ctx, "AccSignal (lazy read)", T, dt, fs, *_common_spectra_checks(ctx, "AccSignal (lazy read)", first, len(P)),
+                      float(np.max(np.abs(a))), step=dt / 64.0)
+        rawl = np.asarray(sdof.pseudo_response_spectra(a, dt, P, 0.05)[0])
+        ctx.check(bool(np.all(first[0] >= rawl * (1 - 1e-6))), "AccSignal (lazy read) S_d below the raw-sample S_d")
         ctx.lib(asig.generate_response_spectrum, xi=xi, min_dt_ratio=ratio)
     elif via == "bare-ratio":  # periods from the constructor, damping default, only the ratio given
         xi = 0.05
-        asig = ctx.lib(eqsig.AccSignal, a, dt, response_times=P)
+        asig = ctx.lib(eqsig.AccSignal, a, dt, response_times=Parg)
         ctx.lib(asig.gen_response_spectrum, min_dt_ratio=ratio)
     else:
         xi = 0.05
         asig = ctx.lib(eqsig.AccSignal, a, dt)
-        ctx.lib(asig.generate_response_spectrum, response_times=P, min_dt_ratio=ratio)
-    hstar = max(T[0] / 20.0, dt / ratio)
+        ctx.lib(asig.generate_response_spectrum, response_times=Parg, min_dt_ratio=ratio)
+    hstar = max(float(np.min(T)) / 20.0, dt / ratio)
     sub = 1 if hstar >= dt else int(math.ceil(dt / hstar * (1 - 1e-12)))
     ctx.cls("cells>=1e%d" % int(math.log10(n * len(P) * sub)), "substeps=%d" % sub)
-    _check_object(ctx, a, dt, P, xi, ratio, _read_spectra(ctx, asig), case["seed"])
+    _check_object(ctx, a, dt, P, xi, ratio, _read_spectra(ctx, asig, case["seed"] + 1), case["seed"])
 
 
 # --- energy spectra and spectrum intensities ------------------------------------------------------------------------------
@@ -1251,11 +1427,13 @@ def mid_range_options(case, ctx):
         T = ratios * dt
         a = _mid_record(n, case["seed"], ratios, case["spike"])
         kw = {}
+        cont = ["ndarray", "list", "tuple"][case["i"] % 3]
+        ctx.cls("container=" + cont)
         if case["periods_arg"] == "explicit":
             asig = eqsig.AccSignal(a, dt)
-            kw["periods"] = T
+            kw["periods"] = _as_periods(T, cont)
         else:
-            asig = eqsig.AccSignal(a, dt, response_times=T)
+            asig = eqsig.AccSignal(a, dt, response_times=_as_periods(T, cont))
         if xi is not None:
             kw["xi"] = xi
         series = case["series"]
@@ -1275,7 +1453,7 @@ def mid_range_options(case, ctx):
         kw = {}
         if case["periods_arg"] == "custom":
             pa = pv = 0.05 + 0.01 * np.arange(case["p"])
-            kw["periods"] = pa
+            kw["periods"] = _as_periods(pa, ["ndarray", "list", "tuple"][case["i"] % 3])
         else:
             pa, pv = np.arange(0.1, 1.51, 0.01), np.arange(0.1, 2.51, 0.01)
         if xi is not None:
@@ -1289,9 +1467,12 @@ def mid_range_options(case, ctx):
     ctx.cls("ratio=omitted" if ratio is None else "ratio=%d" % ratio, "call=" + case["call"], "lead0" if case["lead0"] else None)
     per = case["periods_arg"]
     kw = {}
+    Pc = None
     if per in ("ctor-list", "given"):
         T = np.geomspace([0.47, 3.1, 7.4][case["i"] % 3], 61.0, case["p"]) * dt
+        T = T[_perm({"order": ["shuffle", "asc", "desc"][case["seed"] % 3], "perm_seed": case["seed"]}, len(T))]
         P = np.concatenate([[0.0], T]) if case["lead0"] else T
+        Pc = _as_periods(P, ["list", "ndarray", "tuple"][(case["seed"] // 3) % 3])
     elif per == "ctor-range":
         lo = [0.013, 0.05, 0.31][case["i"] % 3]
         P = np.linspace(lo, lo + 1.7, 100)
@@ -1299,16 +1480,16 @@ def mid_range_options(case, ctx):
         P = np.linspace(0.1, 5, 100)
     a = _mid_record(n, case["seed"], P[P > 0] / dt, case["spike"])
     if per == "ctor-list":
-        asig = ctx.lib(eqsig.AccSignal, a, dt, response_times=P)
+        asig = ctx.lib(eqsig.AccSignal, a, dt, response_times=Pc)
     elif per == "ctor-range":
         asig = ctx.lib(eqsig.AccSignal, a, dt, response_period_range=(float(P[0]), float(P[-1])))
     else:
         asig = ctx.lib(eqsig.AccSignal, a, dt)
         if per == "given":
-            kw["response_times"] = P
+            kw["response_times"] = Pc
     if xi is not None:
         kw["xi"] = xi
     if ratio is not None:
         kw["min_dt_ratio"] = ratio
     ctx.lib(getattr(asig, case["call"]), **kw)
-    _check_object(ctx, a, dt, P, xi_eff, ratio_eff, _read_spectra(ctx, asig), case["seed"])
+    _check_object(ctx, a, dt, P, xi_eff, ratio_eff, _read_spectra(ctx, asig, case["seed"]), case["seed"])
